@@ -30,11 +30,12 @@ type Sim struct {
 	want   map[int][]int // still to be received by the subscriber
 	need   map[int][]int // still to be sent to the subscriber (received later, or left in its buffer)
 	live   bool
+	hold   int // >= 0: a subscriber about to be added; a dispatch whose message it received stays open
 	Stuck  string
 }
 
 func NewSim(c Cfg, logs, left map[int][]int) *Sim {
-	s := &Sim{cfg: c, wk: make([]simWorker, c.NW()), ch: map[int][]int{}, want: map[int][]int{}, need: map[int][]int{}, live: true}
+	s := &Sim{cfg: c, wk: make([]simWorker, c.NW()), ch: map[int][]int{}, want: map[int][]int{}, need: map[int][]int{}, live: true, hold: -1}
 	for k, v := range logs {
 		s.want[k] = append([]int(nil), v...)
 		s.need[k] = append([]int(nil), v...)
@@ -158,6 +159,9 @@ func (s *Sim) progress() bool {
 					covered = false
 				}
 			}
+			if s.hold >= 0 && s.wants(s.hold, k.m) {
+				owing = true // the Range of this dispatch will still yield the subscriber being added
+			}
 			if !owing && (covered || !s.live) {
 				s.emit("ERangeEnd %d", w)
 				k.ranging = false
@@ -247,6 +251,8 @@ func (s *Sim) drain(all bool, only int) {
 // drainBefore dispatches buffered messages as long as the head is not one that
 // subscriber i (about to be added) received.
 func (s *Sim) drainBefore(i int) {
+	s.hold = i
+	defer func() { s.hold = -1 }()
 	for s.Stuck == "" {
 		if s.progress() {
 			continue
